@@ -5,7 +5,7 @@
    No Extract Constant / Extract Inductive of our own. *)
 Require Extraction.
 Require Import ExtrOcamlBasic.
-From Otter Require Import Base Sketch Seq Spec Policy Wheel Maint Ring Mpsc HashMap Load Drain DrainMacro Striped HashMapConc.
+From Otter Require Import Base Sketch Seq Spec Policy Wheel Maint Ring Mpsc HashMap Load Drain DrainMacro Striped HashMapConc Adder.
 (* run with cwd = /verif/ocaml: the extracted files land in the current directory *)
 Extraction "model.ml"
   Base.wrapu Base.wraps Base.satadd Base.abs64
@@ -28,4 +28,5 @@ Extraction "model.ml"
   DrainMacro.macro_step DrainMacro.add_thread DrainMacro.enabled DrainMacro.dstate0 DrainMacro.pc_at
   Striped.sstep Striped.sadd Striped.sstate0 Striped.tables Striped.cur Striped.busy Striped.rings Striped.sths Striped.spc_ Striped.idx Striped.elem Striped.attempt Striped.snap
   HashMapConc.hstep HashMapConc.hinit HashMapConc.len_of HashMapConc.bidx_of HashMapConc.lens HashMapConc.stores HashMapConc.lk HashMapConc.hcur HashMapConc.resizing HashMapConc.spec HashMapConc.hths
-  HashMapConc.hpc_ HashMapConc.hkey HashMapConc.hsnap HashMapConc.hbi HashMapConc.hcop HashMapConc.hres HashMapConc.happ HashMapConc.hretry HashMapConc.hyield HashMapConc.cnt.
+  HashMapConc.hpc_ HashMapConc.hkey HashMapConc.hsnap HashMapConc.hbi HashMapConc.hcop HashMapConc.hres HashMapConc.happ HashMapConc.hretry HashMapConc.hyield HashMapConc.cnt
+  Adder.adder_init Adder.astep Adder.cells Adder.aths Adder.started Adder.applied.
